@@ -21,7 +21,7 @@ SimStep ==
     \/ \E k \in Keys : \E i \in DueExpiries(k) : FireExpiry(k, i)
     \/ /\ turn \in {"tick", "tick2"} \/ Len(reqs) = MaxReq
        /\ Tick
-    \/ UNCHANGED <<ks, now, reqs, out, hist>>      \* the drawn request was not enabled: draw again
+    \/ UNCHANGED <<ks, now, reqs, out, hist, role, nrc>>      \* the drawn request was not enabled: draw again
 
 SimNext == SimStep /\ turn' = Pick(Turns)
 
